@@ -1053,3 +1053,14 @@ Qed.
 Lemma crosses_meaning_proof nbits da :
   crosses nbits da = true <-> (nbits = 16 /\ da_byoff da > 2) \/ (nbits = 32 /\ da_byoff da <> 0).
 Proof. unfold crosses. lia. Qed.
+
+(* reset(): fresh directory, cleared lower memory, counters KEPT *)
+Lemma dc_reset_proof d : geom_ok (cfg (dc d)) ->
+  DInv (dc_reset d) /\ tags_of (dc_reset d) = ref_init (cfg (dc d)) /\
+  counters_of (dc_reset d) = counters_of d /\ lower (dc_reset d) = [] /\
+  cfg (dc (dc_reset d)) = cfg (dc d) /\ wthrough (dc_reset d) = wthrough d /\
+  penalty (dc_reset d) = penalty d.
+Proof.
+  intros Hg. unfold DInv, tags_of, dc_reset. cbn [dc lower wthrough penalty].
+  split; [apply cinv_init; exact Hg|]. split; [apply abs_dir_init|]. repeat split.
+Qed.
